@@ -165,8 +165,9 @@ func specPutVarint(p []byte, v uint64) []byte {
 }
 
 func VH_GEN_xz() {
-	ck := vChecks[vConcretize(int(vNondetU8("check"))%4)]
-	vAssume(int(ck)%vShards() == vShardIdx()%4 || vShards() == 1)
+	cki := vConcretize(int(vNondetU8("check")) % 4)
+	vAssume(cki%vShards() == vShardIdx())
+	ck := vChecks[cki]
 	nb := vConcretize(int(vNondetU8("blocks")) % 3)
 	dictCode := []byte{0, 3, 17}[vConcretize(int(vNondetU8("dictCode"))%3)]
 	var payloads, contents [][]byte
